@@ -67,7 +67,9 @@ package tracing
 //@ pred c36KRec(t, k, s, r) = (k in t.tracingTasks) && s ==> (t.tracingTasks[k].toRecord <==> r)
 // an entry that exists only because a tag or milestone mentioned the ID (no StartTask yet) is not a running task:
 //@ pred c36KPh(t, k, s) = (k in t.tracingTasks) && !s ==> !t.tracingTasks[k].toRecord
-//@ pred c36Inv(t) = c36Shape(t) && c36Sep(t) && (forall k uint64 :: c36KAbs(c36Started[k], c36Ran[k])) && (forall k uint64 :: c36KIn(t, k, c36Started[k])) && (forall k uint64 :: c36KRec(t, k, c36Started[k], c36Ran[k])) && (forall k uint64 :: c36KPh(t, k, c36Started[k]))
+// the entry's own `started` flag is the abstract Started (false for an entry only a tag or milestone has mentioned)
+//@ pred c36KSt(t, k, s) = (k in t.tracingTasks) ==> (t.tracingTasks[k].started <==> s)
+//@ pred c36Inv(t) = c36Shape(t) && c36Sep(t) && (forall k uint64 :: c36KSt(t, k, c36Started[k])) && (forall k uint64 :: c36KAbs(c36Started[k], c36Ran[k])) && (forall k uint64 :: c36KIn(t, k, c36Started[k])) && (forall k uint64 :: c36KRec(t, k, c36Started[k], c36Ran[k])) && (forall k uint64 :: c36KPh(t, k, c36Started[k]))
 
 // entries other than id: same keys, same objects (their fields are protected by the assigns clauses)
 //@ pred c36Others(t, id) = forall k uint64 :: k != id ==> ((k in t.tracingTasks) <==> old(k in t.tracingTasks)) && t.tracingTasks[k] == old(t.tracingTasks[k])
@@ -122,9 +124,11 @@ package tracing
 //@   ensures forall k uint64 :: c36KRec(t, k, c36StartS(k, task.ID), c36StartR(k, task.ID, old(t.isTracing)))
 //@   label C36.start.inv.torecord.this
 //@   ensures t.tracingTasks[task.ID].toRecord <==> (c36Ran[task.ID] || old(t.isTracing))
+//@   label C36.start.inv.started
+//@   ensures forall k uint64 :: c36KSt(t, k, c36StartS(k, task.ID))
 //@   label C36.start.inv.placeholder
 //@   ensures forall k uint64 :: c36KPh(t, k, c36StartS(k, task.ID))
-//@   assigns elems(t.tracingTasks), t.tracingTasks[task.ID].ID, t.tracingTasks[task.ID].ParentID, t.tracingTasks[task.ID].Kind, t.tracingTasks[task.ID].What, t.tracingTasks[task.ID].Location, t.tracingTasks[task.ID].StartTime, t.tracingTasks[task.ID].toRecord
+//@   assigns elems(t.tracingTasks), t.tracingTasks[task.ID].ID, t.tracingTasks[task.ID].ParentID, t.tracingTasks[task.ID].Kind, t.tracingTasks[task.ID].What, t.tracingTasks[task.ID].Location, t.tracingTasks[task.ID].StartTime, t.tracingTasks[task.ID].started, t.tracingTasks[task.ID].toRecord
 
 // ---- StartTracing ----
 //@ fn (*DBTracer).StartTracing
@@ -140,13 +144,15 @@ package tracing
 //@   ensures c36Sep(t)
 //@   label C36.starttracing.inv.torecord
 //@   ensures forall k uint64 :: c36KRec(t, k, c36Started[k], c36Ran[k] || c36Started[k])
+//@   label C36.starttracing.inv.started
+//@   ensures forall k uint64 :: c36KSt(t, k, c36Started[k])
 //@   label C36.starttracing.inv.placeholder
 //@   ensures forall k uint64 :: c36KPh(t, k, c36Started[k])
 //@   assigns t.isTracing, t.tracingStartTime, key("O|tracing.runningTask|.toRecord")
 //@   label C36.starttracing.loop.shape
 //@   loop 0: invariant c36Shape(t) && c36AllSame(t)
 //@   label C36.starttracing.loop.marked
-//@   loop 0: invariant forall k uint64 :: (k in t.tracingTasks) ==> (t.tracingTasks[k].toRecord <==> (old(t.tracingTasks[k].toRecord) || visited(k)))
+//@   loop 0: invariant forall k uint64 :: (k in t.tracingTasks) ==> (t.tracingTasks[k].toRecord <==> (old(t.tracingTasks[k].toRecord) || (visited(k) && t.tracingTasks[k].started))) && (t.tracingTasks[k].started <==> old(t.tracingTasks[k].started))
 
 // ---- StopTracing ----
 //@ fn (*DBTracer).StopTracing
@@ -186,6 +192,8 @@ package tracing
 //@   ensures c36Shape(t)
 //@   label C36.tag.inv.torecord
 //@   ensures forall k uint64 :: c36KRec(t, k, c36Started[k], c36Ran[k])
+//@   label C36.tag.inv.started
+//@   ensures forall k uint64 :: c36KSt(t, k, c36Started[k])
 //@   label C36.tag.inv.placeholder
 //@   ensures forall k uint64 :: c36KPh(t, k, c36Started[k])
 //@   label C36.tag.unstarted.notrecorded
@@ -228,13 +236,15 @@ package tracing
 //@   ensures c36Shape(t)
 //@   label C36.ms.inv.torecord
 //@   ensures forall k uint64 :: c36KRec(t, k, c36Started[k], c36Ran[k])
+//@   label C36.ms.inv.started
+//@   ensures forall k uint64 :: c36KSt(t, k, c36Started[k])
 //@   label C36.ms.inv.placeholder
 //@   ensures forall k uint64 :: c36KPh(t, k, c36Started[k])
 //@   assigns elems(t.tracingTasks), t.tracingTasks[milestone.TaskID].Milestones, elems(t.tracingTasks[milestone.TaskID].Milestones)
 //@   label C36.ms.loop.range
 //@   loop 0: invariant -1 <= rangeindex && rangeindex < len(task.Milestones) && task != nil && (milestone.TaskID in t.tracingTasks) && t.tracingTasks[milestone.TaskID] == task
 //@   label C36.ms.loop.same
-//@   loop 0: invariant (old(milestone.TaskID in t.tracingTasks) ? task == old(t.tracingTasks[milestone.TaskID]) && ref(task.Milestones) == old(ref(t.tracingTasks[milestone.TaskID].Milestones)) && off(task.Milestones) == old(off(t.tracingTasks[milestone.TaskID].Milestones)) && len(task.Milestones) == old(len(t.tracingTasks[milestone.TaskID].Milestones)) : fresh(task) && len(task.Milestones) == 0 && !task.toRecord && task.ID == milestone.TaskID) && c36Others(t, milestone.TaskID)
+//@   loop 0: invariant (old(milestone.TaskID in t.tracingTasks) ? task == old(t.tracingTasks[milestone.TaskID]) && ref(task.Milestones) == old(ref(t.tracingTasks[milestone.TaskID].Milestones)) && off(task.Milestones) == old(off(t.tracingTasks[milestone.TaskID].Milestones)) && len(task.Milestones) == old(len(t.tracingTasks[milestone.TaskID].Milestones)) : fresh(task) && len(task.Milestones) == 0 && !task.toRecord && !task.started && task.ID == milestone.TaskID) && c36Others(t, milestone.TaskID)
 //@   label C36.ms.loop.lastdiffers
 //@   loop 0: invariant rangeindex >= 0 ==> task.Milestones[rangeindex].Time != milestone.Time     // ground instance of the next one
 //@   label C36.ms.loop.noneyet
@@ -291,6 +301,8 @@ package tracing
 //@   ensures forall k uint64 :: c36KIn(t, k, k != task.ID && c36Started[k])
 //@   label C36.end.inv.torecord
 //@   ensures forall k uint64 :: c36KRec(t, k, k != task.ID && c36Started[k], k != task.ID && c36Ran[k])
+//@   label C36.end.inv.started
+//@   ensures forall k uint64 :: c36KSt(t, k, k != task.ID && c36Started[k])
 //@   label C36.end.inv.placeholder
 //@   ensures forall k uint64 :: c36KPh(t, k, k != task.ID && c36Started[k])
 //@   assigns elems(t.tracingTasks), t.tracingTasks[task.ID].EndTime, c36Cnt, c36Rec, c36Typ, c36Val
